@@ -931,7 +931,96 @@ def _reader_shape_findings(prog, fns):
                 out.append(('R11', f, i, '%s#narrow-conversion:%s' % (top.qname, l['name']),
                             '%s fills the %d-bit member %s from a %d-bit text conversion: a value the writer emits correctly (QString::number of the %d-bit member) that does not '
                             'fit %d bits is read back as 0' % (top.display()[:50], wl, l['name'], w, wl, w)))
+        # R13: text read from the element is stored as it is, not normalised
+        for i, n in f.calls():
+            if f.cname(n) not in _NORMALISERS or n.get('obj') is None or not _from_dom_text(f, n['obj']):
+                continue
+            sink = _stored_as_text(prog, f, i)
+            if sink is not None and top.qname not in NORMALISE_OK:
+                out.append(('R13', f, i, '%s#stores-normalised-text:%s' % (top.qname, sink[1]),
+                            '%s stores text of the element after %s (%s): the writer emits the member as it is, so a value with surrounding blanks / other case that was set '
+                            'or received is not what comes back from serialize/parse' % (top.display()[:50], f.cname(n).split('::')[-1] + '()', sink[0])))
     return out
+
+
+_NORMALISERS = ('QString::trimmed', 'QString::simplified', 'QString::toLower', 'QString::toUpper', 'QString::toCaseFolded', 'QString::normalized')
+_DOM_TEXT = ('QDomElement::attribute', 'QDomElement::text', 'QDomElement::attributeNS', 'QDomNode::nodeValue', 'QDomCharacterData::data')
+NORMALISE_OK = {}       # parser qname -> reason (none needed on the tree)
+
+
+def _from_dom_text(f, nid, depth=0):
+    for j in f.walk(nid):
+        m = f.nodes[j]
+        if m['k'] == 'call' and f.cname(m) in _DOM_TEXT:
+            return True
+        if m['k'] == 'var' and m.get('vk') == 'local' and depth < 3:
+            d = f.single_def(m.get('decl'))
+            if d is not None and _from_dom_text(f, d, depth + 1):
+                return True
+    return False
+
+
+def _stored_as_text(prog, f, nid, depth=0):
+    """(description, name) when the value of node nid ends up in a text member: assigned to a QString member, or handed to a setter / appended to a member list"""
+    par = f.parents()
+    cur = nid
+    while True:
+        p = par.get(cur)
+        if p is None:
+            return None
+        pn = f.nodes[p]
+        k = pn['k']
+        if k in ('cast', 'icast', 'paren', 'tmp', 'bind', 'mat'):
+            cur = p
+            continue
+        if k == 'construct' and (pn.get('cls') or '').split('<')[0] in ('QString', 'QVariant', 'std::optional') and len(pn.get('args', [])) == 1:
+            cur = p
+            continue
+        if k == 'assign' and f.skip(pn['r']) == f.skip(cur) or (k == 'assign' and cur in set(f.walk(pn['r'])) and f.skip(pn['r']) == cur):
+            l = f.nodes[f.skip(pn['l'])]
+            if l['k'] == 'mem' and 'QString' in (l.get('t') or ''):
+                return 'assigned to ' + l['name'], l['name']
+            return None
+        if k == 'call':
+            if pn.get('op') == '=' and len(pn.get('opargs', [])) == 2 and f.skip(pn['opargs'][1]) == f.skip(cur):
+                l = f.nodes[f.skip(pn['opargs'][0])]
+                if l['k'] == 'mem' and 'QString' in (l.get('t') or ''):
+                    return 'assigned to ' + l['name'], l['name']
+                return None
+            s = f.sym(pn) or {}
+            if cur in [f.skip(a) for a in pn.get('args', [])] or cur in pn.get('args', []):
+                nm = s.get('name') or ''
+                if (s.get('inrepo') or '/controls/' in (s.get('file') or '')) and re.match(r'(set|add|append|insert)[A-Z_]?', nm) and s.get('ret') in ('void', None, ''):
+                    return 'handed to %s()' % nm, nm
+                if nm in ('append', 'push_back', 'operator<<', 'insert', 'emplace_back') and pn.get('obj') is not None and f.nodes[f.skip(pn['obj'])]['k'] == 'mem':
+                    return 'appended to ' + f.nodes[f.skip(pn['obj'])]['name'], f.nodes[f.skip(pn['obj'])]['name']
+            if pn.get('op') in ('<<', '+=') and len(pn.get('opargs', [])) == 2 and f.skip(pn['opargs'][1]) == f.skip(cur) and f.nodes[f.skip(pn['opargs'][0])]['k'] == 'mem':
+                return 'appended to ' + f.nodes[f.skip(pn['opargs'][0])]['name'], f.nodes[f.skip(pn['opargs'][0])]['name']
+            return None
+        if k == 'decl' and depth < 2:
+            for d in pn.get('decls', []):
+                if d.get('init') is not None and f.skip(d['init']) == f.skip(cur) or (d.get('init') is not None and cur in set(f.walk(d['init'])) and _is_wrapper_chain(f, d['init'], cur)):
+                    did = d.get('var')
+                    for j, m in enumerate(f.nodes):
+                        if m['k'] == 'var' and m.get('decl') == did and m.get('vk') == 'local':
+                            r = _stored_as_text(prog, f, j, depth + 1)
+                            if r is not None:
+                                return r
+            return None
+        return None
+
+
+def _is_wrapper_chain(f, top, inner):
+    cur = f.skip(top)
+    while cur != inner:
+        n = f.nodes[cur]
+        if n['k'] in ('cast', 'icast', 'paren', 'tmp', 'bind', 'mat') and 'e' in n:
+            cur = f.skip(n['e'])
+        elif n['k'] == 'construct' and len(n.get('args', [])) == 1:
+            cur = f.skip(n['args'][0])
+        else:
+            return False
+    return True
 
 
 def rule_reader_shape(prog, run):
@@ -942,20 +1031,24 @@ def rule_reader_shape(prog, run):
     r10 = run.rule('C01.R10', 'while parsing, a multi-valued member only grows: no reader overwrites or removes an entry it has read (listed exceptions: set-valued members '
                               'with a reason)', floor=1)
     r11 = run.rule('C01.R11', 'the text-to-integer conversion of a reader is at least as wide as the member it fills (directly, through a local or a same-file helper)', floor=1)
-    rids = {'R9': r9, 'R10': r10, 'R11': r11}
+    r13 = run.rule('C01.R13', 'a reader stores the text it read as it is: nothing that went through trimmed() / simplified() / toLower() / toUpper() is assigned to a text member, '
+                              'handed to a setter or appended to a member list (normalising for a comparison or an enum conversion is fine)', floor=1)
+    rids = {'R9': r9, 'R10': r10, 'R11': r11, 'R13': r13}
     cpath = os.path.join(build.VERIF, 'controls', 'c01_controls.cpp')
     cprog = facts.Program(build.extract_control(cpath))
     got = {(r, _is_parser(cprog, f)[1].name) for r, f, i, k, m in _reader_shape_findings(cprog, list(cprog.fns.values()))}
-    want = {('R9', 'parseGuardedByOtherAttribute'), ('R10', 'parseOverwritesEntry'), ('R11', 'parseNarrow'), ('R11', 'parseNarrowThroughHelper')}
+    want = {('R9', 'parseGuardedByOtherAttribute'), ('R10', 'parseOverwritesEntry'), ('R11', 'parseNarrow'), ('R11', 'parseNarrowThroughHelper'), ('R13', 'parseNormalises')}
+    if ('R13', 'parseTolerantFlag') in got:
+        raise AnalysisBroken('C01.R13: the negative control (normalised text used for a comparison only) is reported')
     if not want <= got:
-        raise AnalysisBroken('C01.R9-R11: positive controls not reported: %s' % sorted(want - got))
+        raise AnalysisBroken('C01.R9-R13: positive controls not reported: %s' % sorted(want - got))
     fns = [f for f in prog.fns.values() if '/src/' in f.file]
     found = _reader_shape_findings(prog, fns)
     nparsers = sum(1 for f in fns if f.entry is not None and not f.is_lambda and _is_parser(prog, f)[0])
     for r, f, i, key, msg in found:
         run.instance(rids[r])
         run.violation(rids[r], key, f.loc(i), msg)
-    for r in ('R9', 'R10', 'R11'):
+    for r in ('R9', 'R10', 'R11', 'R13'):
         if not any(x[0] == r for x in found):
             run.instance(rids[r])
             run.ok(rids[r], 'src/base', 'none among %d parse functions (the control is reported)' % nparsers)
